@@ -10,10 +10,10 @@ import (
 
 func init() {
 	register(&propDef{
-		ID:    "C19",
-		Level: "other",
+		ID:      "C19",
+		Level:   "other",
 		Explain: "Static wiring proof for the upstream time limits: (F1) the package variable transports are built from is assigned, in its setter, a value derived from the setter's parameter; (F2) in NewTransport each http.Transport / net.Dialer limit field is stored the matching config.Proxy field of that variable (pairing table); (F3) main calls the setter with config.Load's result before any server or table watcher starts; (F4) every transport the HTTP proxy can use (default, insecure, per-route) is a transport.NewTransport result and ServeHTTP selects per-route > skip-verify > default; (F5) the reverse proxy's ErrorHandler is fabio's and maps net.Error timeouts to 504. Decided on all paths and call sites of the type-checked program. (D1) no context deadline is attached to the proxied HTTP request (it would outlive the response headers and cut slow bodies); (T4) no http.Transport sets MaxConnsPerHost (queueing inside net/http is covered by no timeout); Not decided: that net/http enforces the limits within the configured time (timing, delegated to net/http).",
-		Run:   runC19,
+		Run:     runC19,
 		Trusted: []string{"net/http.Transport honours ResponseHeaderTimeout/IdleConnTimeout/MaxIdleConnsPerHost/Dial; net.Dialer honours Timeout/KeepAlive",
 			"httputil.ReverseProxy calls ErrorHandler on RoundTrip errors"},
 		Mutants: []mutant{
